@@ -384,6 +384,53 @@ class SimLock(object):
         self.release()
 
 
+class QuietSimLock(object):
+    """a (re-entrant) lock for auxiliary critical sections: schedulable when contended - a managed thread that finds it taken
+    waits as a scheduling operation instead of blocking for real - but taking or releasing it uncontended is not a step of
+    its own, so the operation sequences the specifications speak of stay as they are"""
+
+    def __init__(self, sched, name="aux"):
+        self.sched = sched
+        self.name = name
+        self.owner = None
+        self.depth = 0
+
+    def _me(self):
+        t = self.sched.current()
+        return t if t is not None else "unmanaged-%d" % threading.get_ident()
+
+    def acquire(self, blocking=True, timeout=-1):
+        me = self._me()
+        if self.owner is me:
+            self.depth += 1
+            return True
+        if self.owner is not None:
+            if not blocking:
+                return False
+            if self.sched.current() is None:
+                raise Deadlock("unmanaged thread would block on %s" % self.name)
+            self.sched.yield_op("lock", self, enabled=lambda: self.owner is None)
+        self.owner = me
+        self.depth = 1
+        return True
+
+    def release(self):
+        self.depth -= 1
+        if self.depth <= 0:
+            self.owner = None
+            self.depth = 0
+
+    def locked(self):
+        return self.owner is not None
+
+    def __enter__(self):
+        self.acquire()
+        return self
+
+    def __exit__(self, *a):
+        self.release()
+
+
 class SimCondition(object):
     def __init__(self, sched, lock=None, name="cond"):
         self.sched = sched
@@ -915,6 +962,10 @@ def simulate_conn_locks(sched, conn, name):
             setattr(conn, attr, cls(sched, name + "." + attr))
     if hasattr(conn, "_recv_event"):
         conn._recv_event = SimCondition(sched, name=name + "._recv_event")
+    # auxiliary locks (whatever the working tree has of them): managed threads must never block on a real lock
+    for attr in ("_cleanup_lock", "_proxy_count_lock"):
+        if hasattr(conn, attr):
+            setattr(conn, attr, QuietSimLock(sched, name + "." + attr))
 
 
 def connect_pair(sched, service_a, service_b, config_a=None, config_b=None, manual=False, compress=True,
